@@ -517,7 +517,7 @@ func ruleReplayUnconditional(c *Ctx, rule string) {
 // ---- errors are not turned into answers ----------------------------------------------------------------------------
 
 func ruleNoErrorSwallow(c *Ctx, rule string, pkgs ...string) {
-	c.Rule(rule, "an error is not turned into an answer: no function of the executor returns a nil error on the edge where an error it received is non-nil (`if err != nil { return false, nil }`) — a join condition that cannot be evaluated (ambiguous or unknown column, incomparable types) would silently become 'no match', and the statement would return a wrong result instead of the error")
+	c.Rule(rule, "an error is not turned into an answer: no function of the executor returns a nil error on the edge where an error it received is non-nil (`if err != nil { return false, nil }`), and none binds the error result of a function of this repository to the blank identifier — a join condition that cannot be evaluated (ambiguous or unknown column, incomparable types) would silently become 'no match', a comparison the helper has no arm for would become 'equal', and the statement would return a wrong result instead of the error")
 	w := c.W
 	n, bad := 0, 0
 	for _, name := range w.SortedFuncNames() {
@@ -610,8 +610,50 @@ func ruleNoErrorSwallow(c *Ctx, rule string, pkgs ...string) {
 			return true
 		})
 	}
+	// the same thing at the call: the error result of a function of this repository is bound to the blank
+	// identifier (`order, _ = compareValues(a, b)`) — in any function of the packages, closures included
+	for _, name := range w.SortedFuncNames() {
+		f := w.Funcs[name]
+		okPkg := false
+		for _, p := range pkgs {
+			if f.Pkg == w.Pkgs[p] {
+				okPkg = true
+			}
+		}
+		if !okPkg {
+			continue
+		}
+		k := 0
+		ast.Inspect(f.Decl.Body, func(x ast.Node) bool {
+			as, ok := x.(*ast.AssignStmt)
+			if !ok || len(as.Rhs) != 1 {
+				return true
+			}
+			call, ok := ast.Unparen(as.Rhs[0]).(*ast.CallExpr)
+			if !ok {
+				return true
+			}
+			fn := f.Callee(call)
+			if fn == nil || fn.Pkg() == nil || pkgKey(fn.Pkg().Path()) == "" {
+				return true
+			}
+			sig, _ := fn.Type().(*types.Signature)
+			if sig == nil || sig.Results().Len() != len(as.Lhs) {
+				return true
+			}
+			n++
+			for i, l := range as.Lhs {
+				if id, ok := l.(*ast.Ident); ok && id.Name == "_" && isErrorType(sig.Results().At(i).Type()) {
+					k++
+					bad++
+					c.FailConfined(rule, f.Name+"|discards-error#"+itoa(k)+"|"+calleeKey(fn), as.Pos(), "%s discards the error of %s with the blank identifier: when the callee cannot do what it was asked (a value of a type it has no arm for, a column it cannot resolve) the zero result is used as if it were an answer", f.Name, calleeKey(fn))
+				}
+			}
+			return true
+		})
+	}
 	if bad == 0 {
-		c.OK(rule, "returns|no-swallow", token.NoPos, n, "%d nil-error returns and error branches examined, none discards an error it was given", n)
+		c.OK(rule, "returns|no-swallow", token.NoPos, n, "%d nil-error returns, error branches and calls examined, none discards an error it was given", n)
 	}
 }
 
